@@ -127,3 +127,24 @@ def index_of(ex, se, xs, x):
     se.facts.append(z3.Implies(occurs, z3.And(0 <= r, r < s.n, s.comps[0][r] == x.t,
                                               z3.ForAll([j], z3.Implies(z3.And(0 <= j, j < r), s.comps[0][j] != x.t)))))
     return VInt(r)
+
+
+@spec_fn("ceil_div")
+def ceil_div(ex, se, a, b):
+    """ceil(a / b) for a positive divisor, in exact integer arithmetic."""
+    return VInt(-((-ops.to_int(a)) / ops.to_int(b)))
+
+
+@spec_fn("psum")
+def psum(ex, se, xs):
+    """S with S(0) = 0 and S(j+1) = S(j) + xs[j]: the prefix sums of an int list in the state where the clause is evaluated."""
+    S = z3.Function(fresh_name("S"), I, I)
+    tmp = State()
+    tmp.heap = se.st.heap
+    if isinstance(xs, VOpt):
+        xs = xs.val
+    arr = list_arrays(tmp, xs)[0] if isinstance(xs, VList) else _seq_of(ex, se, xs).comps[0]
+    j = z3.Int("j!b")
+    se.facts.append(S(0) == 0)
+    se.facts.append(z3.ForAll([j], z3.Implies(j >= 0, S(j + 1) == S(j) + arr[j]), patterns=[S(j + 1)]))
+    return VFunc("uf", name="S", argtys=[parse_ty("int")], retty=parse_ty("int"), fns=[S])
